@@ -161,6 +161,39 @@ def check_chain(types, gset, npts, res):
             uset = n2p.addgrid(None, gids, sets, cin, xyz, cout, coordref)
     except Exception as e:  # noqa
         return ["addgrid raised %r for chain %s" % (e, types)]
+    # the same table built incrementally: one grid per call, systems referenced by integer id once they are known
+    # (through the growing table, and - for separate tables - through a shared coordref dictionary)
+    try:
+        with warnings.catch_warnings():
+            warnings.simplefilter("ignore")
+            u2 = None
+            known = set()
+            cref = {}
+            for g, st, ci, p, co in zip(gids, sets, cin, xyz, cout):
+                cid = 0 if isinstance(ci, int) else int(ci[0, 0])
+                arg = cid if (cid in known or cid == 0) else ci
+                u2 = n2p.addgrid(u2, g, st, arg, p, arg, cref)
+                known.add(cid)
+                # chain parents become known as soon as a child system is resolved
+            parts = []
+            cref2 = {}
+            for g, st, ci, p, co in zip(gids, sets, cin, xyz, cout):
+                cid = 0 if isinstance(ci, int) else int(ci[0, 0])
+                arg = cid if (cid in cref2 or cid == 0) else ci
+                parts.append(n2p.addgrid(None, g, st, arg, p, arg, cref2))
+        a, b = uset.values.astype(float), u2.values.astype(float)
+        if a.shape != b.shape or list(uset.index) != list(u2.index) or not np.allclose(a, b, rtol=0, atol=1e-12 * max(1.0, np.abs(a).max())):
+            msgs.append("chain %s: table built one grid per call (systems referenced by id) differs from the single-call table" % (types,))
+        import pandas as pd
+
+        u3 = pd.concat(parts, axis=0)
+        c = u3.values.astype(float)
+        if a.shape != c.shape or not np.allclose(a, c, rtol=0, atol=1e-12 * max(1.0, np.abs(a).max())):
+            msgs.append("chain %s: separate tables sharing one coordref dictionary differ from the single-call table" % (types,))
+        if sorted(k for k in cref2 if k != 0) != sorted(int(d[0, 0]) for d in defs):  # 0 = basic, always available
+            msgs.append("chain %s: coordref holds systems %s after the calls, defined were %s" % (types, sorted(cref2), sorted(int(d[0, 0]) for d in defs)))
+    except Exception as e:  # noqa
+        msgs.append("chain %s: incremental addgrid calls raised %r" % (types, e))
     for gidx, X, pb, ploc in truth:
         got = uset.loc[(gidx, 1), "x":"z"].values.astype(float)
         if not np.allclose(got, pb, rtol=0, atol=1e-9 * max(1.0, np.abs(pb).max())):
